@@ -249,6 +249,16 @@ def inline_adjacent_temps(func, log=None):
                 return
             if isinstance(n, (ast.Lambda, ast.ListComp, ast.SetComp, ast.DictComp, ast.GeneratorExp) + _FUNC):
                 once = False
+            if isinstance(n, ast.BoolOp):
+                walk(n.values[0], once)
+                for v in n.values[1:]:
+                    walk(v, False)          # evaluated only when the earlier operands allow
+                return
+            if isinstance(n, ast.IfExp):
+                walk(n.test, once)
+                walk(n.body, False)
+                walk(n.orelse, False)
+                return
             for c in ast.iter_child_nodes(n):
                 walk(c, once)
         for r in roots:
@@ -257,6 +267,50 @@ def inline_adjacent_temps(func, log=None):
             return hits[0][0]
         return None
 
+    def _eval_order(n):
+        """sub-expressions of a statement/expression in the order their evaluation completes"""
+        if isinstance(n, (ast.Assign, ast.AnnAssign)):
+            if n.value is not None:
+                yield from _eval_order(n.value)
+            for t in (n.targets if isinstance(n, ast.Assign) else [n.target]):
+                yield from _eval_order(t)
+            return
+        if isinstance(n, ast.AugAssign):
+            yield from _eval_order(n.target)
+            yield from _eval_order(n.value)
+            return
+        if isinstance(n, ast.Dict):
+            for k, v in zip(n.keys, n.values):
+                if k is not None:
+                    yield from _eval_order(k)
+                yield from _eval_order(v)
+            yield n
+            return
+        if isinstance(n, (ast.Lambda,) + _FUNC):
+            yield n
+            return
+        for c in ast.iter_child_nodes(n):
+            if isinstance(c, (ast.expr_context, ast.operator, ast.unaryop, ast.cmpop, ast.boolop)):
+                continue
+            yield from _eval_order(c)
+        if isinstance(n, ast.expr):
+            yield n
+
+    def order_safe(value, nxt, use, rebind):
+        """substituting ``value`` at ``use`` keeps the evaluation order: either value makes no
+        call, or nothing but plain names, constants and attribute lookups on them is evaluated in nxt before the use"""
+        if not any(isinstance(x, (ast.Call, ast.Await, ast.Yield, ast.YieldFrom)) for x in ast.walk(value)):
+            return True
+        root = nxt.value if rebind else (nxt.test if isinstance(nxt, ast.If) else nxt.iter if isinstance(nxt, ast.For) else nxt)
+        for x in _eval_order(root):
+            if x is use:
+                return True
+            if isinstance(x, ast.Attribute) and isinstance(x.ctx, ast.Load):
+                continue        # a plain attribute / method lookup (its operand was checked before it)
+            if not isinstance(x, (ast.Name, ast.Constant)):
+                return False
+        return False
+
     class Put(ast.NodeTransformer):
         def __init__(self, target, value):
             self.target, self.value = target, value
@@ -264,7 +318,11 @@ def inline_adjacent_temps(func, log=None):
         def visit_Name(self, node):
             return self.value if node is self.target else node
 
+    cnt = [None]
+
     def fix(body):
+        if cnt[0] is None:
+            cnt[0] = counts()
         i = 0
         while i + 1 < len(body):
             st, nxt = body[i], body[i + 1]
@@ -272,11 +330,12 @@ def inline_adjacent_temps(func, log=None):
                 t = st.targets[0].id
                 rebind = isinstance(nxt, ast.Assign) and len(nxt.targets) == 1 \
                     and isinstance(nxt.targets[0], ast.Name) and nxt.targets[0].id == t
-                if t not in special and (rebind or (t not in params and counts().get(t) == 2)):
+                if t not in special and (rebind or (t not in params and cnt[0].get(t) == 2)):
                     # (rebind: ``t = e; t = g(t)`` -- the first value's only reader is the next statement)
                     use = single_load(nxt, t, rebind)
-                    if use is not None:
+                    if use is not None and order_safe(st.value, nxt, use, rebind):
                         Put(use, st.value).visit(nxt)
+                        cnt[0] = counts()
                         if log is not None:
                             log.append((func.name, t, st.lineno))
                         del body[i]
@@ -413,6 +472,124 @@ def split_tuple_assign(func):
     func.body = fix(func.body)
 
 
+def propagate_type_temps(func):
+    """``v = type(p)`` / ``v = id(p)`` with p a name that is never rebound in the function and
+    v assigned only there, every use of v following the assignment inside its block:
+    substitute the call for v and drop the assignment (undoes common-subexpression extraction
+    of the two identity-only builtins)"""
+    stores = {}
+    for n in ast.walk(func):
+        if isinstance(n, ast.Name) and isinstance(n.ctx, (ast.Store, ast.Del)):
+            stores[n.id] = stores.get(n.id, 0) + 1
+        elif isinstance(n, ast.ExceptHandler) and n.name:
+            stores[n.name] = stores.get(n.name, 0) + 1
+        elif isinstance(n, ast.arg):
+            pass
+    shadow = {n.id for n in ast.walk(func) if isinstance(n, ast.Name) and n.id in ('type', 'id')
+              and isinstance(n.ctx, ast.Store)}
+    if shadow:
+        return
+
+    def blocks(node):
+        for f in ('body', 'orelse', 'finalbody'):
+            v = getattr(node, f, None)
+            if isinstance(v, list) and v and isinstance(v[0], ast.stmt):
+                yield v
+        for h in getattr(node, 'handlers', ()):
+            yield h.body
+
+    def visit(block):
+        i = 0
+        while i < len(block):
+            st = block[i]
+            if isinstance(st, _FUNC):
+                i += 1
+                continue
+            done = False
+            if isinstance(st, ast.Assign) and len(st.targets) == 1 and isinstance(st.targets[0], ast.Name) \
+                    and isinstance(st.value, ast.Call) and isinstance(st.value.func, ast.Name) \
+                    and st.value.func.id in ('type', 'id') and len(st.value.args) == 1 and not st.value.keywords \
+                    and isinstance(st.value.args[0], ast.Name):
+                v, p_ = st.targets[0].id, st.value.args[0].id
+                if stores.get(v) == 1 and not stores.get(p_) and v != p_:
+                    rest = block[i + 1:]
+                    inside = sum(1 for s2 in rest for n in ast.walk(s2) if isinstance(n, ast.Name) and n.id == v)
+                    total = sum(1 for n in ast.walk(func) if isinstance(n, ast.Name) and n.id == v)
+                    if inside == total - 1 and inside >= 1:
+                        class Put(ast.NodeTransformer):
+                            def visit_Name(self, node):
+                                if node.id == v and isinstance(node.ctx, ast.Load):
+                                    return ast.copy_location(copy.deepcopy(st.value), node)
+                                return node
+                        for k in range(i + 1, len(block)):
+                            block[k] = Put().visit(block[k])
+                        del block[i]
+                        done = True
+            if done:
+                continue
+            for b in blocks(st):
+                visit(b)
+            i += 1
+
+    visit(func.body)
+
+
+def append_loop_to_comprehension(func, log=None):
+    """``x = []`` immediately followed by ``for t in it: x.append(e)`` (nothing else in the loop,
+    no else clause, x not mentioned in e / it)  ->  ``x = [e for t in it]``"""
+
+    def fix(body):
+        out = []
+        i = 0
+        while i < len(body):
+            st = body[i]
+            nxt = body[i + 1] if i + 1 < len(body) else None
+            if isinstance(st, ast.Assign) and len(st.targets) == 1 and isinstance(st.targets[0], ast.Name) \
+                    and isinstance(st.value, ast.List) and not st.value.elts \
+                    and isinstance(nxt, ast.For) and not nxt.orelse and len(nxt.body) == 1:
+                x = st.targets[0].id
+                b = nxt.body[0]
+                if isinstance(b, ast.Expr) and isinstance(b.value, ast.Call) and isinstance(b.value.func, ast.Attribute) \
+                        and b.value.func.attr == 'append' and isinstance(b.value.func.value, ast.Name) \
+                        and b.value.func.value.id == x and len(b.value.args) == 1 and not b.value.keywords:
+                    e = b.value.args[0]
+                    mentions = any(isinstance(n, ast.Name) and n.id == x for n in list(ast.walk(e)) + list(ast.walk(nxt.iter)))
+                    if not mentions:
+                        comp = ast.ListComp(elt=e, generators=[ast.comprehension(target=nxt.target, iter=nxt.iter, ifs=[], is_async=0)])
+                        new = ast.Assign(targets=st.targets, value=comp, lineno=st.lineno)
+                        ast.copy_location(new, nxt)
+                        ast.copy_location(comp, nxt)
+                        ast.fix_missing_locations(new)
+                        if log is not None:
+                            log.append((func.name, x, st.lineno))
+                        out.append(new)
+                        i += 2
+                        continue
+            if not isinstance(st, _FUNC):
+                for f in ('body', 'orelse', 'finalbody'):
+                    v = getattr(st, f, None)
+                    if isinstance(v, list) and v and isinstance(v[0], ast.stmt):
+                        setattr(st, f, fix(v))
+                for h in getattr(st, 'handlers', ()):
+                    h.body = fix(h.body)
+            out.append(st)
+            i += 1
+        return out
+
+    func.body = fix(func.body)
+
+
+class _DictCopy(ast.NodeTransformer):
+    """``{**x}``  ->  ``dict(x)`` (the two spellings of a shallow dict copy)"""
+
+    def visit_Dict(self, node):
+        self.generic_visit(node)
+        if len(node.keys) == 1 and node.keys[0] is None:
+            c = ast.Call(func=ast.Name(id='dict', ctx=ast.Load()), args=[node.values[0]], keywords=[])
+            return ast.fix_missing_locations(ast.copy_location(c, node))
+        return node
+
+
 class _OrDefault(ast.NodeTransformer):
     """``x = x or E`` / ``x = x if x else E`` / ``x = E if not x else x``  ->  ``if not x: x = E``"""
 
@@ -444,11 +621,14 @@ class _OrDefault(ast.NodeTransformer):
 
 
 def apply_all(tree):
+    tree = _DictCopy().visit(tree)
     tree = _OrDefault().visit(tree)
     tree = _PositiveElse().visit(tree)
     for node in ast.walk(tree):
         if isinstance(node, (ast.FunctionDef, ast.AsyncFunctionDef)):
             split_tuple_assign(node)
+            append_loop_to_comprehension(node)
+            propagate_type_temps(node)
             if_assign_to_ifexp(node)
             for_range_to_while(node)
             coalesce_copies(node)
@@ -462,4 +642,5 @@ def normalise_template(tree):
     from .program import _NegForms
     tree = _NegForms().visit(tree)
     tree = _PositiveElse().visit(tree)
+    tree = _DictCopy().visit(tree)
     return ast.fix_missing_locations(tree)
